@@ -75,7 +75,7 @@ def miri_lane(tier, v, flags_list, max_arity):
     for sc in ("nary-sum", "nary-product"):
         for i in range(nsh):
             jobs.append((sc, [sc, str(max_arity), str(i), str(nsh)]))
-    for sc in ("terminal", "axle", "devices", "wrappers"):
+    for sc in ("terminal", "axle", "devices", "wrappers", "to_dyn"):
         jobs.append((sc, [sc, str(max_arity)]))
     total_calls = 0
     executions = 0
